@@ -216,8 +216,13 @@ def sib5(ctx, pid):
         if tb_after != ("bin", ">>", want_tb, C(1)):
             probs.append("the tested bit moves by `%s`, expected >>= 1" % tstr(tb_after)[:50])
     c = "direction:SparseMerkleTree._get"
-    if probs:
-        ctx.bad(c, f.loc(), probs[0], witness={"problems": sorted(set(probs))})
+    concrete = [x for x in probs if not x.startswith("cannot interpret")]
+    if concrete:
+        ctx.bad(c, f.loc(), concrete[0], witness={"problems": sorted(set(probs))})
+    elif probs:
+        # the step is written in a shape the table does not read (benign/smtf-2: siblings collected as
+        # (sibling, child) pairs): a refusal, not a verdict
+        ctx.unsure(c, f.loc(), probs[0] + ": sibling / next-hash are not plain halves of the node on this path; direction table not decided")
     elif seen < 2:
         ctx.bad(c, f.loc(), "no bit test found in the descent loop")
     else:
